@@ -145,3 +145,47 @@ def register(add):
         "frame-control bytes are not judged, trailing bytes are allowed.",
         "DESIGN.md 3/C08",
     )
+    add(
+        "C15",
+        "fault_enumeration",
+        "invariants at quiescent points established purely from return statuses and table writes (probe phase), exhaustive operation strings x per-write answers {success, rejection, timeout} x all initial NCP tables",
+        "Real Multicast + real EZSP (frame mode) + NCP multicast-table model.  Every subscribe/unsubscribe "
+        "string over three groups up to the tier's length, each table write answered success / rejection / "
+        "timeout (not applied), from every initial table in which each group appears at most once, sizes 0..4, "
+        "with and without start-up subscriptions.  After every string a probe phase checks that the groups the "
+        "host treats as subscribed are exactly those with a non-zero endpoint in the NCP table, that "
+        "re-subscribing writes nothing, that exactly as many further groups can be subscribed as the NCP table "
+        "has unused indices (no leaked index after a failed call, by rejection or timeout), that writes only go "
+        "to unused indices and that no group occupies two slots.",
+        "Trusted: NCP table model (a timed-out write is not applied); status conversion for 'succeeds'.",
+        "DESIGN.md 3/C15",
+    )
+    add(
+        "C16",
+        "exploration",
+        "trace-specification monitor over the set-configuration / set-value frames seen by a configuration-store NCP model; twin run for the rejection clause",
+        "Real EZSP.write_config in frame mode for every protocol version, seeded random current values per "
+        "setting (below / equal / above default / unreadable), override sets over the version's own schema keys "
+        "(new in-range value or None) and per-setting accept/reject answers, with forced coverage of the corner "
+        "classes.  Oracle over the frames the NCP saw: each id set at most once; a capacity setting the user did "
+        "not supply is never lowered below the reported value; a user value is written exactly; a disabled "
+        "setting is never written and the call does not fail; the packet-buffer count is the last set frame; the "
+        "attempted settings do not depend on accept/reject answers.",
+        "Trusted: capacity-setting name list fixed in the oracle; plain-store NCP model; schema defaults count as "
+        "library defaults, not user input.",
+        "DESIGN.md 3/C16",
+    )
+    add(
+        "C19",
+        "exploration",
+        "online monitor with a consecutive-failure counter as reference model; exhaustive outcome strings played through the real watchdog feed hook",
+        "ControllerApplication._watchdog_feed on the real application + EZSP in frame mode, protocol versions 4, "
+        "5, 8, 13, 14 (all in thorough).  Every success/failure string up to the tier's length (failure kind "
+        "rotated over timeout / invalidCommand / EZSP stopped, placed in either command of the feed on versions "
+        "above 4), every string over the full alphabet up to a shorter length, and a 400-feed all-success run.  "
+        "Oracle: the feed raises iff the number of consecutive failures exceeds MAX_WATCHDOG_FAILURES, any "
+        "success clears the count, the keep-alive is nop on v4 and a counter read otherwise, read-and-clear "
+        "exactly on every period-th feed of the all-success run.",
+        "Trusted: zigpy.util.Requests shim; NCP model; constants read from the tree.",
+        "DESIGN.md 3/C19",
+    )
